@@ -18,7 +18,7 @@ use std::sync::Arc;
 use vcore::Report;
 
 fn base(mode: Mode, split: &[usize], ps: PsKind) -> Case {
-    Case { mode, idempotent: false, split: split.to_vec(), ps, faults: Vec::new(), consumer: Consumer::Eager }
+    Case { mode, idempotent: false, split: split.to_vec(), ps, faults: Vec::new(), consumer: Consumer::Eager, nodes: pg::NODES }
 }
 
 /// paging-state alphabets of the quick tier (thorough adds `mixed`); the rotation below walks this list
@@ -86,6 +86,36 @@ fn gen_fault(nmax1: usize, nmax2: Option<usize>) -> Vec<Case> {
                         let c = Case { idempotent: idem, faults: faults.clone(), ..base(mode, &s, ps) };
                         if pg::admissible(&c) {
                             v.push(c);
+                        }
+                    }
+                }
+            }
+        }
+    }
+    v
+}
+
+/// A retryable next-node failure on the FIRST attempt of every page from page j on, in ONE iteration that has more
+/// pages than the cluster has nodes: each page request must get its own fresh set of fail-over targets.
+fn gen_every_page() -> Vec<Case> {
+    let mut v = Vec::new();
+    let mut i = 0usize;
+    for nodes in [2usize, 3] {
+        for pages in nodes + 1..=nodes + 4 {
+            for shape in 0..2 {
+                // one row per page / every second page empty
+                let split: Vec<usize> = (0..pages).map(|p| if shape == 0 || p % 2 == 0 { 1 } else { 0 }).collect();
+                for j in 0..pages {
+                    // OVERLOADED on an idempotent statement / UNAVAILABLE (retried on the next node once per page request)
+                    for (f, idem) in [(Fault::Overloaded, true), (Fault::Unavailable, false)] {
+                        for cons in [Consumer::Eager, Consumer::PauseAll] {
+                            let ps = PSQ[i % PSQ.len()];
+                            i += 1;
+                            for mode in Mode::ALL {
+                                let c = Case { idempotent: idem, faults: (j..pages).map(|p| (p, f)).collect(), consumer: cons.clone(), nodes, ..base(mode, &split, ps) };
+                                assert!(pg::admissible(&c) && pg::expect(&c).error.is_none());
+                                v.push(c);
+                            }
                         }
                     }
                 }
@@ -175,7 +205,7 @@ fn main() {
     if let Some(case) = r.replay_case() {
         let Some(case) = Case::from_json(&case) else { vcore::machinery_error("replay artefact does not hold a C07 case") };
         let res = rt.block_on(async {
-            let mut w = pg::World::setup().await?;
+            let mut w = pg::World::setup(case.nodes).await?;
             let (mut c, obs) = w.run_case(&case).await?;
             w.settle().await;
             c.extend(w.judge_drops().0);
@@ -207,7 +237,9 @@ fn main() {
         "fault" => {
             let nmax = nmax_arg.unwrap_or(if thorough { 4 } else { 3 });
             let nmax2: Option<usize> = if thorough { Some(r.args.extra_value("--nmax2").and_then(|s| s.parse().ok()).unwrap_or(3)) } else { None };
-            (gen_fault(nmax, nmax2), json!({"rows_max_one_fault": nmax, "rows_max_two_faults": nmax2, "faults_per_run": if thorough { 2 } else { 1 }}))
+            let mut cases = gen_fault(nmax, nmax2);
+            cases.extend(gen_every_page());
+            (cases, json!({"rows_max_one_fault": nmax, "rows_max_two_faults": nmax2, "faults_per_run": if thorough { 2 } else { 1 }, "every_page_family": "next-node failure on the first attempt of every page from page j on, 2- and 3-node clusters, nodes+1..nodes+4 pages"}))
         }
         "consumer" => {
             let nmax = nmax_arg.unwrap_or(if thorough { 5 } else { 4 });
@@ -218,7 +250,7 @@ fn main() {
     };
     let mut cases = cases;
     // cases with a connection reset need a world of their own: run them after the others (stable: simplest first within each group)
-    cases.sort_by_key(|c| c.has_reset());
+    cases.sort_by_key(|c| (c.has_reset(), pg::NODES - c.nodes));
     if r.args.has_flag("--count") {
         println!("{} cases", cases.len());
         std::process::exit(0);
